@@ -105,7 +105,9 @@ fn attrs_of(e: &BytesStart, decoder: quick_xml::encoding::Decoder) -> Result<Vec
 pub fn read_back(bytes: &[u8]) -> Result<Vec<Canon>, String> {
     let slice = read_back_from(Reader::from_reader(bytes), bytes, |r| r.read_event().map(|e| e.into_owned()))?;
     // the streaming reader must give the same events, whatever the piece size
-    for piece in [1usize, 2, 5] {
+    // a chunked source recognises a byte-order mark only inside its first piece (stated exception of C02)
+    let pieces: [usize; 3] = if bytes.starts_with(&[0xEF, 0xBB, 0xBF]) { [4, 5, 7] } else { [1, 2, 5] };
+    for piece in pieces {
         let script = crate::env::Script::pieces(piece);
         let mut buf = Vec::new();
         let streamed = read_back_from(Reader::from_reader(crate::env::Source::new(bytes, &script)), bytes, |r| {
@@ -155,11 +157,18 @@ fn read_back_from<R>(mut r: Reader<R>, bytes: &[u8], mut next: impl FnMut(&mut R
 }
 
 pub fn write_sync(specs: &[Spec], indent: Option<(u8, usize)>) -> Result<Vec<u8>, String> {
+    write_sync_bom(specs, indent, false)
+}
+
+pub fn write_sync_bom(specs: &[Spec], indent: Option<(u8, usize)>, bom: bool) -> Result<Vec<u8>, String> {
     guarded(|| {
         let mut w = match indent {
             None => Writer::new(Vec::new()),
             Some((c, n)) => Writer::new_with_indent(Vec::new(), c, n),
         };
+        if bom {
+            w.write_bom().unwrap();
+        }
         for s in specs {
             for e in build(s) {
                 w.write_event(e).unwrap();
@@ -200,6 +209,15 @@ pub fn check_sequence(specs: &[Spec]) -> Result<Vec<u8>, String> {
     if got != want {
         let i = (0..got.len().max(want.len())).find(|&i| got.get(i) != want.get(i)).unwrap_or(0);
         return Err(format!("written {:?}; event #{} read back as {:?}, built as {:?}", lossy(&bytes), i, got.get(i), want.get(i)));
+    }
+    // a byte-order mark written first (Writer::write_bom) is not part of any event read back
+    let with_bom = write_sync_bom(specs, None, true)?;
+    if with_bom.len() != bytes.len() + 3 || !with_bom.starts_with(&[0xEF, 0xBB, 0xBF]) || with_bom[3..] != bytes[..] {
+        return Err(format!("write_bom + events wrote {:?}", lossy(&with_bom)));
+    }
+    let got_bom = guarded(|| read_back(&with_bom)).map_err(|p| format!("panic while reading back: {}", p))??;
+    if got_bom != want {
+        return Err(format!("behind a byte-order mark the events read back as {:?}, built as {:?}", got_bom, want));
     }
     Ok(bytes)
 }
